@@ -123,7 +123,7 @@ PROPS = {
     "C07": {
         "theorems": T("C07", ["scope_file", "scope_decl", "scope_stmt", "scope_stmt_none", "scope_line", "scope_line_after_decl", "inline_iff", "declIndex_spec",
                                "ignore_exact_report", "ignore_exact_detect", "marker_codes_upper", "raise_independent_of_comments", "ignoreOps_startsValid"]),
-        "suites": ["ignore", ("ignore", {"scan": "1", "n": 40}), ("std", {"withmodel": "1", "focus": "IGN"})],
+        "suites": ["ignore", ("ignore", {"scan": "1", "n": 40}), ("ignore", {"checks": "IMM,ctor02,TONL03,PKGO01", "n": 40}), ("std", {"withmodel": "1", "focus": "IGN"})],
         "assumptions": ["scope theorems assume MonoCut / NextCut (in preorder, once a node starts at/after the comment all later nodes do): decidable, true of go/ast trees for comments inside bodies, and the markers of every generated program are compared with the real ReadIgnoreAnnotations",
                         "'the following statement' is formalised as the first node in preorder that starts after the comment (the node with the smallest start position after it, outermost), in its whole extent",
                         "marker starts are >= 1 (PosValid: comment positions and line starts are real positions)"],
@@ -178,7 +178,7 @@ PROPS = {
     "C14": {
         "theorems": T("C14", ["shouldSkip_char", "scan_tests_like_any", "tonl_never_in_tests", "excluded_inert", "no_diag_in_excluded", "imm_site_pos", "ctor_site_pos"]),
         "suites": [("excl", {}), ("excl", {"scan": "1"}), ("excl", {"paths": "zz,gen_"}), ("excl", {"scan": "1", "paths": "zz_,in_test"}),
-                   ("excl", {"paths": "test,testdata,zz_testdata", "n": 24}), ("bin", {"mode": "excludedir"}),
+                   ("excl", {"paths": "test,testdata,zz_testdata", "n": 24}), ("excl", {"paths": "/zz_,d0/gen_,0/in_test.go", "n": 24}), ("bin", {"mode": "excludedir"}),
                    ("prog", {"focus": "IMM,CTOR,PKGO,ANN:IKTMP", "scan": "1", "testfiles": "1", "n": 30, "nocorpus": "1"})],
         "binary": True,
         "assumptions": ["declarations in excluded files still exist for the type checker; the theorem keeps the type information fixed"],
